@@ -81,6 +81,7 @@ pub fn fail(sig: impl Into<String>, what: impl Into<String>) -> Sexp {
 }
 
 pub mod c11;
+pub mod c04;
 pub mod c08;
 pub mod c08_expr;
 pub mod c18;
@@ -108,6 +109,7 @@ pub mod c19;
 pub fn all() -> Vec<Box<dyn Prop>> {
     vec![
         Box::new(c11::C11),
+        Box::new(c04::C04),
         Box::new(c08::C08),
         Box::new(c18::C18),
         Box::new(c20::C20),
